@@ -21,8 +21,22 @@ def h(*parts):
     return int.from_bytes(hashlib.blake2b(repr(parts).encode(), digest_size=6).digest(), 'big')
 
 
-TOP_FAULTS = ('null', 'raise', 'return_exc', 'shape')
+TOP_FAULTS = ('null', 'raise', 'return_exc', 'shape', 'iter_raise')
 ITEM_FAULTS = ('null', 'return_exc', 'shape')
+
+
+class FailingList:
+    """A list source that yields `items` and then raises `exc` (instead of ending)."""
+
+    def __init__(self, items, exc):
+        self.items, self.exc = list(items), exc
+
+    def __iter__(self):
+        yield from self.items
+        raise self.exc
+
+    def __repr__(self):
+        return f'FailingList({self.items!r}, {self.exc!r})'
 
 
 class BadLeaf:
@@ -47,6 +61,13 @@ def make_value(schema, seed, fault_rate=0.0, kinds=TOP_FAULTS):
                     raise Injected(f'raise@{list(pk)}')
                 if kind == 'return_exc':
                     return Injected(f'returned@{list(pk)}')
+                if kind == 'iter_raise':
+                    nt = t.of_type if is_non_null_type(t) else t
+                    if not is_list_type(nt):
+                        return None
+                    n = (x >> 20) % 4
+                    items = [gen(pk + (i,), nt.of_type, h(seed, pk, i, 'item'), False) for i in range(n)]
+                    return FailingList(items, Injected(f'source-raise@{list(pk)}'))
                 # shape fault: depends on the expected type
                 nt = t.of_type if is_non_null_type(t) else t
                 if is_list_type(nt):
@@ -107,5 +128,6 @@ def make_resolver(value_fn, calls=None):
         path = info.path.as_list()
         if calls is not None:
             calls.append((tuple(path), args))
-        return value_fn(path, info.parent_type.name, info.field_name, args, info.return_type)
+        v = value_fn(path, info.parent_type.name, info.field_name, args, info.return_type)
+        return iter(v) if isinstance(v, FailingList) else v
     return resolver
